@@ -231,9 +231,9 @@ def math_ops(rng, tier, w):
         ops.append("run ecpBign gfpCreate_deep 1 %d %d %d %d" % (no, no, 1 if no == 32 else 0, sd()))
     for (m, k, l, l1) in ((163, 7, 6, 3), (233, 74, 0, 0), (283, 12, 7, 5), (409, 87, 0, 0), (571, 10, 5, 2), (131, 8, 3, 2), (193, 15, 0, 0)):
         ops.append("run gf2Ring gf2Create_deep 1 %d %d %d %d %d %d" % (m, m, k, l, l1, sd()))
-    # only the curve with a standard base point (dstuParamsStd ships none for the others; a base that is
-    # not on the curve violates the \\expect of ecMulA and trips unrelated ASSERTs)
-    ops.append("run ec2Dstu gf2Create_deep 1 163 163 0 %d" % sd())
+    # DSTU fields 163/173/233/431 (a base point is generated with dstuPointGen where dstuParamsStd ships none)
+    for (m_, cv) in ((163, 0), (173, 1), (233, 2), (431, 3)):
+        ops.append("run ec2Dstu gf2Create_deep 1 %d %d %d %d" % (m_, m_, cv, sd()))
     return ops
 
 
